@@ -844,8 +844,8 @@ Proof.
 Qed.
 
 (* the text of a well-formed items list is read as its classified lines *)
-Theorem read_text_print top is : wf_items is = true ->
-  read_text true top (print_table is) = read_blocks true top (items_kinds is).
+Theorem read_text_print eb top is : wf_items is = true ->
+  read_text true eb top (print_table is) = read_blocks_sel true eb top (items_kinds is).
 Proof.
   intros H. unfold read_text, print_table.
   rewrite split_lines_print.
